@@ -86,7 +86,7 @@ def hashAll (H : Bytes → Bytes) (s : St) : St × String :=
       if x.live then
         let h := hash H hp x.t
         let rest := go (i + 1) h.1 r
-        (rest.1, ("H" ++ toString i ++ "=" ++ toHex h.2) :: rest.2)
+        (rest.1, ("H" ++ toString i ++ "=" ++ showHash h.2) :: rest.2)
       else go (i + 1) hp r
   let r := go 0 s.hp s.hs
   ({ s with hp := r.1 }, C02.joinWith " " r.2)
@@ -113,14 +113,15 @@ def stepOp (H : Bytes → Bytes) (deep : Bool) (s : St) : Op → St × String ×
     | none => (s, "bad-op", false)
     | some x =>
       let r := clearPrefixLimit H s.hp x.t p n
-      (s.setHandle r.1 h x r.2.1, toString r.2.2.1 ++ "," ++ C02.showBool r.2.2.2, false)
+      if r.2.2.1 ≥ panicMark then (s, "panic", true)
+      else (s.setHandle r.1 h x r.2.1, toString r.2.2.1 ++ "," ++ C02.showBool r.2.2.2, false)
   | .snap h =>
     match s.handle? h with
     | none => (s, "bad-op", false)
     | some x =>
       let t' := snapshot x.t
       if deep then
-        let c := deepCopyF (s.hp.size + 1) s.hp x.t.root
+        let c := deepCopyF bigFuel s.hp x.t.root
         ({ hp := c.1, hs := s.hs ++ [{ t := { t' with root := c.2 }, parent := some h, live := true }] },
           "h" ++ toString s.hs.length, false)
       else
@@ -135,7 +136,7 @@ def stepOp (H : Bytes → Bytes) (deep : Bool) (s : St) : Op → St × String ×
   | .hash h =>
     match s.handle? h with
     | none => (s, "bad-op", false)
-    | some x => let r := hash H s.hp x.t; ({ s with hp := r.1 }, toHex r.2, false)
+    | some x => let r := hash H s.hp x.t; ({ s with hp := r.1 }, showHash r.2, false)
   | .hashall => let r := hashAll H s; (r.1, r.2, false)
   | .wd h =>
     match s.handle? h with
